@@ -25,6 +25,7 @@ def vsub (a b : List Float) : List Float := List.zipWith (· - ·) a b
     * `logbox`                 : `Σ ln(x_i) + ln(1 - x_i)` on (0,1)^d, NaN outside (C14)
     * `sqrtgamma rate`         : `Σ ln(√x_i) - rate·x_i` on x > 0, value and gradient NaN outside (C04/C14: the halving loop of
                                  `find_reasonable_epsilon`)
+    * `gaussoff dim mean… P… off` : `gaussd` plus the constant `off` (a log-density large in absolute value; C03)
     * `cliff r2 drop`          : `-½|x|²`, lowered by `drop` where `|x|² > r2` (energy errors at the divergence bound; C03) -/
 def parseTarget (ty : String) (ws : List String) : Option TargetF :=
   let nums (l : List String) : Option (List Float) :=
@@ -72,6 +73,15 @@ def parseTarget (ty : String) (ws : List String) : Option TargetF :=
             -- autodiff through `ln ∘ sqrt`: `(1/√t)·(1/(2√t))`, NaN for `t < 0`
             fun x => x.map fun t => (if t < 0 then nan else 1 / Float.sqrt t / (2 * Float.sqrt t)) - rate⟩
     | _ => none
+  | "gaussoff" :: dim :: rest =>
+    match dim.toNat?, nums rest with
+    | some d, some v =>
+      let mean := v.take d
+      let P := chunks d ((v.drop d).take (d * d))
+      let off := v.getD (d + d * d) 0
+      some ⟨fun x => let dx := vsub x mean; -0.5 * dot dx (matVec P dx) + off,
+            fun x => (matVec P (vsub x mean)).map fun t => -t⟩
+    | _, _ => none
   | ["cliff", r2, drop] =>
     match nums [r2, drop] with
     | some [r2, drop] =>
